@@ -16,8 +16,6 @@ func (x *Exec) onFuncEntry(fr *Frame, st *State, ctx *FuncCtx)                 {
 func (x *Exec) onFuncExit(fr *Frame, st *State, ctx *FuncCtx, env *SpecEnv) {
 	x.checkBalanced(fr, st, ctx)
 }
-func (x *Exec) onMapWrite(st *State, m MapV, key, was *Term, v Value, set bool) {}
-func (x *Exec) onMapInit(st *State, m MapV)                                     {}
 func (x *Exec) onAlloc(st *State, p PtrV)                                       {}
 func (x *Exec) onHeapHavoc(st *State)                                           {}
 func (x *Exec) onPanic(fr *Frame, st *State, e ast.Node)                        {}
